@@ -252,6 +252,55 @@ def r1_r2(prog, ev, rep):
         rep.check(is_null(dt), "C14-R1", "default/extension_custom", prog.loc_of(dp), "null", "trait default returns `%s`" % dt)
 
 
+def loop_form_custom(prog, ev, rep, e, where):
+    """`let mut vals = vec![]; for arg in args { match arg.process(state).data { Value(v) => vals.push(Cow::Owned(v)), Ref(p) =>
+    vals.push(Cow::Borrowed(p.inner)), _ => {} } }`: the same hand-over written as a loop."""
+    acc = e.a[2]
+    if acc.k != "phi":
+        return False
+    argp = prog.impl_method("crate::query::Query", "crate::parser::model::FnArg", "process")
+    kinds = set()
+    for alt in acc.a:
+        if (alt.k == "call" and alt.a == ("<vec>",)) or alt.k == "loopvar":
+            continue
+        if alt.k != "mutated":
+            return False
+        prev, eff = alt.a
+        if not (prev.k == "phi" and all((x.k == "call" and x.a == ("<vec>",)) or x.k == "loopvar" for x in prev.a)):
+            return False
+        if not (isinstance(eff, Tm) and eff.k == "call" and eff.a[0].endswith("::push") and len(eff.a) == 3):
+            return False
+        x = eff.a[2]
+        if not (x.k == "adt" and x.a[0] == "alloc::borrow::Cow" and len(x.a[2]) == 1):
+            return False
+        pay = x.a[2][0][1]
+        calls = [y for y in subterms(pay) if y.k == "call" and y.a[0] == argp]
+        if len(calls) != 1:
+            return False
+        c = calls[0]
+        itemok = c.a[1].k == "call" and c.a[1].a[0] == "<item>" and c.a[1].a[1].k == "param" and c.a[1].a[1].a[0] == 1
+        stateok = c.a[2].k == "param" and c.a[2].a[0] == 2
+        if not (itemok and stateok):
+            return False
+        data = Tm("field", (c, "data"))
+        if x.a[1] == "Owned" and pay == Tm("proj", (data, "Data::Value.0")):
+            kinds.add("Value")
+        elif x.a[1] == "Borrowed" and pay == Tm("field", (Tm("proj", (data, "Data::Ref.0")), "inner")):
+            kinds.add("Ref")
+        elif x.a[1] == "Borrowed" and pay.k == "field" and pay.a[1] == "inner" and pay.a[0].k == "call" and pay.a[0].a[0] == "<item>" \
+                and pay.a[0].a[1] == Tm("proj", (data, "Data::Refs.0")):
+            kinds.add("Refs")           # every node of a node list, borrowed, in order
+        else:
+            return False
+    if not ({"Value", "Ref"} <= kinds):
+        return False
+    rep.ok("C14-R3", "custom/hook", where, "loop over the arguments in order, appending to the end of the argument vector")
+    rep.ok("C14-R3", "custom/eval", where, "arg.process(state)")
+    rep.ok("C14-R3", "custom/values", where, "Value -> owned, Ref -> borrowed node")
+    rep.ok("C14-R3", "custom/missing", where, "only Value and Ref push an element: a missing argument contributes none")
+    return True
+
+
 def r3(prog, ev, rep):
     rep.rule("C14-R3", "hand-over: custom() evaluates every argument against the current state in written order and "
              "passes a value owned / a node borrowed, a missing argument as nothing; the extension's result becomes the state's value", floor=4)
@@ -276,7 +325,11 @@ def r3(prog, ev, rep):
     good = e.a[1].k == "param" and e.a[1].a[0] == 0
     src, stages = PL.unwind(e.a[2])
     names = [s[0] for s in stages]
-    okpipe = src.k == "param" and src.a[0] == 1 and names == ["into_iter", "map", "flat_map", "collect"]
+    okpipe = src.k == "param" and src.a[0] == 1 and names[:1] in (["into_iter"], ["iter"]) and names[1:] == ["map", "flat_map", "collect"]
+    if not okpipe and good and loop_form_custom(prog, ev, rep, e, where):
+        okres = ct.k == "call" and ct.a[0].endswith("State::<'a, T>::data") and ct.a[2].k == "adt" and ct.a[2].a[1] == "Value" and ct.a[2].a[2][0][1] == e
+        rep.check(okres, "C14-R3", "custom/result", where, "State::data(root, Value(result))", "result is `%s`" % ct)
+        return
     rep.check(good and okpipe, "C14-R3", "custom/hook", where, "extension_custom(name, args evaluated in order)",
               "hook is called as `%s` (pipeline %s)" % (e, names))
     if okpipe:
